@@ -9,7 +9,7 @@ From Coq Require Import QArith List Bool ZArith.
 From SF Require Import Base.QKernel Model.Validate Model.ValidateSpec
   Proofs.Validate_kernel Proofs.Validate_graph Proofs.Validate_proofs Proofs.Validate_translate
   Proofs.Validate_repr Proofs.Validate_sound
-  Base.GeomAST Base.Planar Base.Planar_C03 Proofs.Planar_slab_base Proofs.Validate_ogc Proofs.Validate_jordan.
+  Base.GeomAST Base.Planar Base.Planar_C03 Proofs.Planar_slab_base Proofs.Validate_ogc Proofs.Validate_jordan Proofs.Validate_sound_all.
 Import ListNotations.
 Open Scope Q_scope.
 
@@ -297,3 +297,72 @@ Example nested_probe_invariant_nonvacuous :
   /\ first_off_boundary A (as_lines B) = SInterior
   /\ first_off_boundary [(4, 3); (3, 4); (2, 2); (4, 3)] (as_lines B) = SInterior.
 Proof. vm_compute. repeat split; reflexivity. Qed.
+
+(* ---------------------------------------------------------------- model-valid => ogc clauses, all points *)
+(* SOUNDNESS of Polygon.Validate against the verified reference.  For finite rings without
+   repeated consecutive vertices, a nil verdict of the (fixed) validation implies EVERY clause of
+   ogc_valid's poly_def except connectivity: every ring is a linear ring by the definition; two
+   rings share at most one point; every point of every hole is inside or on the shell; no point of
+   a hole is interior to another hole (poly_def = poly_def_but_connectivity && interior_connected).
+   NOT PROVED: (i) the connectivity clause in either direction (acyclic touch graph <-> connected
+   face graph) - by ogc_local_complete below this is the ONLY gap between the model and poly_def
+   for polygons; (ii) rings with repeated consecutive vertices; (iii) for MultiPolygon only
+   multipolygon_validate_sound_partial (boundaries): "no point interior to two members" from the
+   midpoint probes of validatePolyNotInsidePoly (which skip intersection-free segments) needs a
+   global argument and is not attempted.  (i)-(iii) are exercised on every case of the
+   correspondence run (model verdict = ogc_valid). *)
+Theorem polygon_validate_sound_everywhere : forall (shell : list pt) (holes : list (list pt)),
+  Forall (fun r => as_lines r = ring_edges r) (shell :: holes) ->
+  Forall (fun r => ring_geom_validate r = None) (shell :: holes) ->
+  poly_geom_validate nested_v1 (shell :: holes) = None ->
+  Forall (fun r => has_2_distinct r = true /\ is_closed r = true /\ Simple r) (shell :: holes)
+  /\ ForallOrdPairs (fun a b => forall p q, on_edges (segs a) p = true -> on_edges (segs b) p = true ->
+                                 on_edges (segs a) q = true -> on_edges (segs b) q = true -> pt_eq p q) (shell :: holes)
+  /\ Forall (fun h => forall p, on_edges (segs h) p = true -> locate (g_poly [shell]) p <> Exterior) holes
+  /\ ForallOrdPairs (fun h k => forall p, (on_edges (segs h) p = true -> locate (g_poly [k]) p <> Interior)
+                                       /\ (on_edges (segs k) p = true -> locate (g_poly [h]) p <> Interior)) holes.
+Proof. exact polygon_validate_sound_everywhere_lemma. Qed.
+Print Assumptions polygon_validate_sound_everywhere.
+
+Theorem validate_polygon_sound : forall rs : list (list oxy),
+  validate (VPoly rs) = None ->
+  exists rings, all_fin fin_pts rs = Some rings /\
+    (Forall (fun r => as_lines r = ring_edges r) rings -> poly_def_but_connectivity rings = true).
+Proof. exact validate_polygon_sound_lemma. Qed.
+Print Assumptions validate_polygon_sound.
+Example validate_polygon_sound_nonvacuous :
+  let rs := [[P 0 0; P 6 0; P 6 6; P 0 6; P 0 0]; [P 0 0; P 3 1; P 1 3; P 0 0]; [P 3 1; P 5 1; P 5 3; P 3 1]] in
+  validate (VPoly rs) = None
+  /\ match all_fin fin_pts rs with
+     | Some rings => forallb (fun r => Nat.eqb (length (as_lines r)) (length (ring_edges r))) rings
+                     && poly_def_but_connectivity rings && poly_def rings
+     | None => false
+     end = true.
+Proof. vm_compute. auto. Qed.
+
+(* the easy half of completeness: what ogc_valid's everywhere-clauses accept, the probes accept *)
+Theorem ogc_accepts_probes : forall A B : list pt,
+  (2 <= length A)%nat -> as_lines B = segs_of_pts B -> pts_closed B = true ->
+  (hole_inside B A = true -> first_off_boundary A (as_lines B) <> SExterior)
+  /\ (not_nested A B = true -> pts_closed A = true -> first_off_boundary A (as_lines B) <> SInterior).
+Proof. exact ogc_accepts_probes_lemma. Qed.
+Print Assumptions ogc_accepts_probes.
+
+(* COMPLETENESS of all local checks: a polygon (finite rings, no repeated consecutive vertices) that
+   satisfies every clause of poly_def except connectivity passes every ring check, and the model
+   can reject it for one reason only: a cycle in the touch graph.  Together with
+   validate_polygon_sound the gap between the model and ogc_valid for polygons is exactly
+   "touch graph acyclic <-> interior_connected" (not proved; correspondence run). *)
+Theorem ogc_local_complete : forall rings : list (list pt),
+  Forall (fun r => as_lines r = ring_edges r) rings ->
+  poly_def_but_connectivity rings = true ->
+  Forall (fun r => ring_geom_validate r = None) rings
+  /\ (poly_geom_validate nested_v1 rings = None \/ poly_geom_validate nested_v1 rings = Some RInteriorConnected).
+Proof. exact ogc_local_complete_lemma. Qed.
+Print Assumptions ogc_local_complete.
+Example ogc_local_complete_nonvacuous :
+  let sq := [(0, 0); (4, 0); (4, 4); (0, 4); (0, 0)] in
+  let rings := [sq; [(2, 0); (3, 1); (2, 2); (1, 1); (2, 0)]; [(2, 2); (3, 3); (2, 4); (1, 3); (2, 2)]] in
+  poly_def_but_connectivity rings = true /\ poly_def rings = false
+  /\ poly_geom_validate nested_v1 rings = Some RInteriorConnected.
+Proof. vm_compute. auto. Qed.
